@@ -38,12 +38,14 @@ type mutant struct {
 	Note      string   `json:"note,omitempty"`
 	Edits     []edit   `json:"edits,omitempty"` // further edits (same or other files), all must apply
 	Control   bool     `json:"control,omitempty"` // behaviour-preserving edit: every check must stay silent
+	All       bool     `json:"all,omitempty"`
 }
 
 type edit struct {
 	File    string `json:"file"`
 	Find    string `json:"find"`
 	Replace string `json:"replace"`
+	All     bool   `json:"all,omitempty"` // replace every occurrence (renames)
 }
 
 func main() {
@@ -59,7 +61,7 @@ func main() {
 
 	if *prop == "matrix" {
 		// development aid: one load, every property; prints the failing obligations per property (no evidence)
-		os.Exit(runMatrix(*repo))
+		os.Exit(runMatrix(*repo, *overlay))
 	}
 	if *worker != "" {
 		runWorker(*prop, *repo, *worker, *overlay)
@@ -129,7 +131,7 @@ func runWorker(prop, repo, ctx, overlay string) {
 			os.Exit(2)
 		}
 		ov = map[string][]byte{}
-		for _, e := range append([]edit{{m.File, m.Find, m.Replace}}, m.Edits...) {
+		for _, e := range append([]edit{{m.File, m.Find, m.Replace, m.All}}, m.Edits...) {
 			path := filepath.Join(repo, e.File)
 			src, ok := ov[path]
 			if !ok {
@@ -144,7 +146,11 @@ func runWorker(prop, repo, ctx, overlay string) {
 				json.NewEncoder(os.Stdout).Encode(workerOut{Context: ctx, Failure: "inapplicable"})
 				return
 			}
-			ov[path] = []byte(strings.Replace(string(src), e.Find, e.Replace, 1))
+			cnt := 1
+			if e.All {
+				cnt = -1
+			}
+			ov[path] = []byte(strings.Replace(string(src), e.Find, e.Replace, cnt))
 		}
 	}
 	out := analyse(prop, repo, ctx, ov)
@@ -443,14 +449,54 @@ func runSelftestCmd(prop, repo, verif string) int {
 	return rc
 }
 
-func runMatrix(repo string) int {
+func overlayOf(repo, overlay string) (map[string][]byte, bool) {
+	if overlay == "" {
+		return nil, true
+	}
+	b, err := os.ReadFile(overlay)
+	if err != nil {
+		return nil, false
+	}
+	var m mutant
+	if err := json.Unmarshal(b, &m); err != nil {
+		return nil, false
+	}
+	ov := map[string][]byte{}
+	for _, e := range append([]edit{{m.File, m.Find, m.Replace, m.All}}, m.Edits...) {
+		path := filepath.Join(repo, e.File)
+		src, ok := ov[path]
+		if !ok {
+			var err error
+			src, err = os.ReadFile(path)
+			if err != nil {
+				return nil, false
+			}
+		}
+		if !strings.Contains(string(src), e.Find) {
+			return nil, false
+		}
+		cnt := 1
+		if e.All {
+			cnt = -1
+		}
+		ov[path] = []byte(strings.Replace(string(src), e.Find, e.Replace, cnt))
+	}
+	return ov, true
+}
+
+func runMatrix(repo, overlay string) int {
 	defer func() {
 		if r := recover(); r != nil {
 			fmt.Printf("TOOL-FAILURE %v\n", r)
 			os.Exit(2)
 		}
 	}()
-	p := core.Load(core.LoadOpts{Dir: repo, GOARCH: "amd64"})
+	ov, ok := overlayOf(repo, overlay)
+	if !ok {
+		fmt.Println("INAPPLICABLE")
+		return 3
+	}
+	p := core.Load(core.LoadOpts{Dir: repo, GOARCH: "amd64", Overlay: ov})
 	var props []string
 	for k := range rules.Registry {
 		props = append(props, k)
